@@ -4,8 +4,8 @@
     common prefix of the two keys' bit strings ([msb_bits]: most significant bit
     of each byte first). *)
 From Coq Require Import ZArith List Bool.
-From Low Require Import Lib.Bits Lib.BitSeq Lib.Lex Lib.Bytes Model.Sigbits Spec.SigbitsSpec
-  Proofs.SigbitsFirstDiff Proofs.SigbitsCountPrefixes Proofs.SigbitsMeaning.
+From Low Require Import Lib.Bits Lib.BitSeq Lib.Lex Lib.Bytes Lib.LexExtra_sig Model.Sigbits Spec.SigbitsSpec
+  Spec.SigbitsSpec16x Proofs.SigbitsFirstDiff Proofs.SigbitsCountPrefixes Proofs.SigbitsMeaning Proofs.SigbitsCounters.
 Import ListNotations.
 Open Scope Z_scope.
 
@@ -101,4 +101,86 @@ Proof.
   split; [vm_compute; intuition congruence|].
   split; [eexists; split; vm_compute; reflexivity|].
   vm_compute. reflexivity.
+Qed.
+
+(** * Widening: the unexported helpers on their own, what users of the counters rely on,
+      the single-key range *)
+
+(** sFirstDiffBit(a, b) = length of the common prefix of the two bit strings (any two byte strings) *)
+Theorem C16_sFirstDiffBit : forall a b, bytes_ok a -> bytes_ok b ->
+  sFirstDiffBit a b = Some (first_diff_bit a b).
+Proof. exact sFirstDiffBit_exact. Qed.
+Print Assumptions C16_sFirstDiffBit.
+
+(** get64Bits(s): a 64-bit word whose bits, most significant first, are the first 64 bits of the
+    key's bit string, padded with zeros ([window false 64]) *)
+Theorem C16_get64Bits : forall s, bytes_ok s ->
+  0 <= get64Bits s < 2 ^ 64 /\ msbn 64 (get64Bits s) = window false 64 (msb_bits s).
+Proof. exact get64Bits_exact. Qed.
+Print Assumptions C16_get64Bits.
+
+(** m0 is the length of the common bit prefix of ALL keys of the range (the doc comment of
+    CountPrefixes): every two keys agree on their first m0 bits, some adjacent pair has its first
+    difference exactly at bit m0, and m0 is the first-difference bit of the first and the last key *)
+Theorem C16_spec_m0_common_prefix : forall keys s e m,
+  keys_ok keys -> strict_asc keys -> 0 <= s -> s + 2 <= e -> e <= zlen keys ->
+  let ks := sub_keys keys s e in
+  let m0 := fst (spec_CountPrefixes keys s e m) in
+  (forall a b, In a ks -> In b ks ->
+     firstn (Z.to_nat m0) (msb_bits a) = firstn (Z.to_nat m0) (msb_bits b)) /\
+  (exists p, In p (adj_pairs ks) /\ first_diff_bit (fst p) (snd p) = m0) /\
+  m0 = first_diff_bit (hd [] ks) (last ks []).
+Proof. exact m0_common_prefix. Qed.
+Print Assumptions C16_spec_m0_common_prefix.
+
+(** the counters: start at 1, the second is at least 2, never decrease, lie in [1, e-s], reach e-s
+    as soon as the width passes every first difference, and one more bit of width adds exactly the
+    adjacent pairs whose first difference is that bit *)
+Theorem C16_counters_shape : forall keys s e m,
+  keys_ok keys -> strict_asc keys -> 0 <= s -> s + 2 <= e -> e <= zlen keys ->
+  let ds := spec_FirstDiffBits (sub_keys keys s e) in
+  let m0 := fst (spec_CountPrefixes keys s e m) in
+  let cs := snd (spec_CountPrefixes keys s e m) in
+  (1 <= m -> nth 0 cs 0 = 1) /\
+  (2 <= m -> 2 <= nth 1 cs 0) /\
+  (forall i j, (i <= j)%nat -> (j < Z.to_nat m)%nat -> nth i cs 0 <= nth j cs 0) /\
+  (forall i, (i < Z.to_nat m)%nat -> 1 <= nth i cs 0 <= e - s) /\
+  (forall i, (i < Z.to_nat m)%nat -> (forall d, In d ds -> d < m0 + Z.of_nat i) -> nth i cs 0 = e - s) /\
+  (forall i, (S i < Z.to_nat m)%nat ->
+     nth (S i) cs 0 - nth i cs 0 = count_if (fun d => d =? m0 + Z.of_nat i) ds).
+Proof.
+  exact (fun keys s e m Hok Hasc Hs He Hl =>
+    conj (counters_first keys s e m Hok Hasc Hs He Hl)
+   (conj (counters_second keys s e m Hok Hasc Hs He Hl)
+   (conj (counters_mono keys s e m Hok Hasc Hs He Hl)
+   (conj (counters_bounds keys s e m Hok Hasc Hs He Hl)
+   (conj (counters_saturate keys s e m Hok Hasc Hs He Hl)
+         (counters_step keys s e m Hok Hasc Hs He Hl)))))).
+Qed.
+Print Assumptions C16_counters_shape.
+
+(** a range of one key (keys in any order): no panic, m0 = the largest int32 (the minimum over no
+    pair), and m counters equal to 1 -- one key has one truncation at every width *)
+Theorem C16_CountPrefixes_single : forall keys s m,
+  keys_ok keys -> 0 <= s -> s < zlen keys -> 1 <= m ->
+  exists sb, New keys = Some sb /\ CountPrefixes sb s (s + 1) m = Some (spec_CountPrefixes_single m).
+Proof. exact CountPrefixes_single. Qed.
+Print Assumptions C16_CountPrefixes_single.
+
+Theorem C16_spec_single_meaning : forall k b, count_trunc k [b] = 1.
+Proof. exact count_trunc_single. Qed.
+Print Assumptions C16_spec_single_meaning.
+
+Example C16_widening_nonvacuous :
+  let keys := [[98]; []; [97; 0]] in
+  keys_ok keys /\ (0 <= 1 /\ 1 < zlen keys /\ 1 <= 3) /\
+  (exists sb, New keys = Some sb /\ CountPrefixes sb 1 2 3 = Some (2147483647, [1; 1; 1])) /\
+  spec_CountPrefixes_single 3 = (2147483647, [1; 1; 1]) /\
+  sFirstDiffBit [97;97;97;97;97;97;97;97;97] [97;97;97;97;97;97;97;97;97;0] = Some 72 /\
+  get64Bits [1; 2] = 0x0102000000000000.
+Proof.
+  cbv zeta. split; [apply keys_okb_ok; reflexivity|].
+  split; [vm_compute; intuition congruence|].
+  split; [eexists; split; vm_compute; reflexivity|].
+  vm_compute. intuition congruence.
 Qed.
